@@ -1019,7 +1019,9 @@ def do_attributes(part, start, end):
             elif isinstance(o, score.Clef):
                 if not staves_included:
                     staves_e = etree.SubElement(attr_e, "staves")
-                    staves_e.text = "{}".format(len(clefs))
+                    # the number of staves of the part (not the number of
+                    # clefs that happen to change at one position)
+                    staves_e.text = "{}".format(part.number_of_staves)
                     staves_included = True
 
                 clef_e = etree.SubElement(attr_e, "clef")
